@@ -1314,3 +1314,34 @@ def seglog_open_cleanup(ctx):
                  scenario="c03_first_commit_crash", key="seglog::open:Ok without listing / cleaning the directory"),
           PQuery("seglog::open: Ok is reachable", cfg, {bb: [("bad", None)] for bb in oks}, [], {}, expect="sat")]
     return qs, {"seglog::open @ nomt/src/seglog/mod.rs"}
+
+
+# ---------------------------------------------------------------------------------------------
+# C12: a rollback request that cannot be served changes nothing
+
+def rollback_reject_first(ctx):
+    """rollback::Rollback::truncate: the `None` answer ("not enough logged") is produced before anything
+    was popped from the in-memory log; Nomt::rollback turns it into an error before a session is begun."""
+    prog = ctx.program("nomt")
+    qs, enc = [], set()
+    f = _fn(prog, r"^rollback::.*::truncate$", "rollback/mod.rs", r"Rollback")
+    cfg = pathsmt.Cfg(f)
+    ops, nones, pops = {}, [], []
+    for bb in cfg.order:
+        b = cfg.blocks[bb]
+        if b.call and re.search(r"pop_recent|pop_oldest", b.call[1]):
+            ops.setdefault(bb, []).append(("set", "popped"))
+            pops.append(bb)
+        for st in list(b.stmts) + [b.term or ""]:
+            if re.search(r"= Option::<BTreeMap<.*>>::None|= Option::<.*BTreeMap.*>::None", st):
+                ops.setdefault(bb, []).append(("bad_if", "popped"))
+                nones.append(bb)
+        if b.call is None and any(re.search(r"pending_truncate", pathsmt.src_text(sp) or "") and re.match(r"\(", st) for st, sp in zip(b.stmts, b.spans)):
+            pass
+    if not pops or not nones:
+        raise Unmatched("Rollback::truncate: pop / None events not found (%d, %d)" % (len(pops), len(nones)))
+    qs.append(PQuery("Rollback::truncate: `None` (cannot be served) is answered before anything is popped", cfg, ops, ["popped"], {},
+                     scenario="c12_rejected_rollback", key="Rollback::truncate:log consumed by a request that is then refused"))
+    qs.append(PQuery("Rollback::truncate: the refusal is reachable", cfg, {bb: [("bad", None)] for bb in nones}, [], {}, expect="sat"))
+    enc.add("rollback::Rollback::truncate @ nomt/src/rollback/mod.rs")
+    return qs, enc
